@@ -56,6 +56,8 @@ impl util::SymbolManager<asm::Symbol>
                             // have no PRG ROM offset
                             let maybe_prg_offset = addr
                                 .checked_sub(addr_start)
+                                .and_then(|v| v.checked_mul(bankdef.addr_unit))
+                                .map(|v| v / 8)
                                 .and_then(|v| v.checked_add(output_offset / 8))
                                 .and_then(|v| v.checked_sub(0x10));
 
